@@ -33,7 +33,12 @@ RULE = ('tables of 2-7 columns (quick: mostly 3-5) x 60-120 rows from a random c
         'dependence) / cyclic (all cyclic column shifts => circulant tau matrix) / small (8-14 rows => taus on a '
         'coarse lattice, many ties) / discrete (rounded => tau-b with row ties) / neardup / dup (an exactly '
         'duplicated column) / indep / zero (Kendall tau with column 0 EXACTLY 0: x on a symmetric grid with '
-        'x**2, rows mirrored in column 0, 9-row permutation grids; the first 8 tables of every run); each fitted as center, direct and regular vine with truncation t in 1..d. '
+        'x**2, rows mirrored in column 0, 9-row permutation grids; the first 8 tables of every run) / ties (yes-no flags, 3-5 level ratings, rounded columns next to '
+        'continuous ones, re-drawn until the maximum spanning tree of |tau-a| is not one of |tau-b|; tables 9-14 of '
+        'every run); about 1 fit in 3 is a SECOND fit of an object first fitted on another table (columns permuted / '
+        'fresh same width / narrower / wider, own truncation) and is compared with a fresh object; the tau matrix '
+        'the first Tree.fit received is compared (1e-12) with Kendall tau-b computed independently by '
+        'scipy.stats.kendalltau, which is also the weight of the MST clause; each fitted as center, direct and regular vine with truncation t in 1..d. '
         'A case is distinct by (type, d, t, extracted structure, first-tree tau matrix) and non-trivial when '
         'd >= 3 and the fit returned; fits that raise (perfectly dependent columns make a later '
         '`Bivariate.fit` raise ValueError) are counted as refused.  Unit stream: random and vine-shaped edge '
